@@ -1,5 +1,5 @@
 SPECIFICATION Spec
 CONSTANT Side = "client"
-CONSTANT Only = "all"
+CONSTANT Only = "burst"
 INVARIANT Emit
 CHECK_DEADLOCK FALSE
